@@ -5,13 +5,14 @@ p='/verif/DESIGN.md'
 s=open(p).read()
 i=s.index("## 8. Showing that the checks can fail")
 j=s.index("## 9. Log of false alarms and corrections")
-def rows(pattern, r2, r3=False, r4=False):
+def rows(pattern, r2, r3=False, r4=False, r5=False):
     out=[]
     for d in sorted(x for x in glob.glob('/verif/seeded/*') if os.path.isdir(x)):
         k=os.path.basename(d)
-        if ('-r4-' in k)!=r4: continue
-        if not r4 and ('-r3-' in k)!=r3: continue
-        if not r3 and not r4 and ('-r2-' in k)!=r2: continue
+        if ('-r5-' in k)!=r5: continue
+        if not r5 and ('-r4-' in k)!=r4: continue
+        if not r4 and not r5 and ('-r3-' in k)!=r3: continue
+        if not r3 and not r4 and not r5 and ('-r2-' in k)!=r2: continue
         m=json.load(open(d+'/meta.json'))
         clause=''
         if m.get('violated_clauses'):
@@ -22,8 +23,8 @@ def rows(pattern, r2, r3=False, r4=False):
         if m.get('origin'): extra=' — '+m['origin']
         out.append('| %s | %s | %s%s |'%(k,m['property'],clause,extra))
     return out
-r1=rows('',False); r2=rows('',True); r3=rows('',False,True); r4=rows('',False,False,True)
-n1=len(r1); n2=len(r2); n3=len(r3); m3=sum('missed at first' in r for r in r3); n4=len(r4); m4=sum('missed at first' in r for r in r4)
+r1=rows('',False); r2=rows('',True); r3=rows('',False,True); r4=rows('',False,False,True); r5=rows('',False,False,False,True)
+n1=len(r1); n2=len(r2); n3=len(r3); m3=sum('missed at first' in r for r in r3); n4=len(r4); m4=sum('missed at first' in r for r in r4); n5=len(r5); m5=sum('missed at first' in r for r in r5)
 m1=sum('missed at first' in r for r in r1); m2=sum('missed at first' in r for r in r2)
 own=open('/verif/mutants/RESULTS.txt').read().strip().split('\n')
 ownrows=[]
@@ -88,6 +89,14 @@ checks stood, %d missed at first.
 | seed | property | detected by (scenario / clause) |
 |---|---|---|
 '''%(n4,n4-m4,m4)+'\n'.join(r4)+'''
+
+**Round 5** (%d changes, brief of round 4 plus "prefer rarely exercised paths, options and entry
+points" and a list of the ideas already used, so that the authors had to find new ones; run
+against the checks as they stood after round 4): %d detected as the checks stood, %d missed.
+
+| seed | property | detected by (scenario / clause) |
+|---|---|---|
+'''%(n5,n5-m5,m5)+'\n'.join(r5)+'''
 
 What changed in response, as a rule rather than case by case: every property whose code handles a
 length, a count or an index now has a *scale* scenario next to its small-scope product, in which
